@@ -131,7 +131,10 @@ def tight_spacing(ref, ts, reach=93600):
 # zone generation
 # ---------------------------------------------------------------------------
 
-ABBRS = ["LMT", "AST", "ADT", "BST", "GMT", "IST", "XYZT", "WXST", "A", "+03",
+# "HST" is stored as the tail of "AHST" (and "ST" of both) in the
+# abbreviation table, as zic does for America/Adak
+ABBRS = ["AHST", "HST", "ST",
+         "LMT", "AST", "ADT", "BST", "GMT", "IST", "XYZT", "WXST", "A", "+03",
          "-0330", "LONGABBR", "ABCDEFGH", "+103045", "-093015"]
 
 
